@@ -154,6 +154,21 @@ fn tsel_set<'a>(res: &ResultItem<'a, TextResource>, ranges: &Value) -> Option<Ve
 /// Returns (outcome, result handle, api json)
 pub fn read(ctx: &Ctx, op: &Op) -> (String, i64, Value) {
     let style = ctx.style;
+    if op.ev == "ConcRun" {
+        let a = &op.a;
+        let r = catch_unwind(AssertUnwindSafe(|| {
+            let dir = std::path::PathBuf::from(format!("/verif/work/conc_{}", std::process::id()));
+            std::fs::create_dir_all(&dir).expect("harness: conc dir");
+            let sch: Vec<usize> = a["schedule"].as_array().unwrap().iter().map(|x| x.as_u64().unwrap() as usize).collect();
+            let out = crate::sched::run(&a["shape"], a["ops"].as_array().unwrap(), &sch, &dir);
+            let _ = std::fs::remove_dir_all(&dir);
+            out
+        }));
+        return match r {
+            Ok(v) => ("ok".into(), 0, v),
+            Err(_) => ("panic".into(), 0, json!({"has": true, "threads": []})),
+        };
+    }
     if op.ev == "Query" {
         let (outcome, api) = crate::query::query_event(&ctx.store, &op.a, style);
         return (outcome, 0, api);
@@ -426,4 +441,4 @@ pub fn read(ctx: &Ctx, op: &Op) -> (String, i64, Value) {
 
 pub const READ_EVENTS: &[&str] =
     &["Lookup", "TextSel", "AnnTextOf", "OffsetReport", "Utf8Byte", "ByteToChar", "TextOp", "TestRelation", "RelatedText",
-      "TestRelationRow", "RelatedRow", "Validate", "WebAnno", "Parse", "Query"];
+      "TestRelationRow", "RelatedRow", "Validate", "WebAnno", "Parse", "Query", "ConcRun"];
